@@ -119,8 +119,10 @@ class HtmlRenderer(BaseRenderer):
     def render_quote(self, token: block_token.Quote) -> str:
         elements = ['<blockquote>']
         self._suppress_ptag_stack.append(False)
-        elements.extend([self.render(child) for child in token.children])
-        self._suppress_ptag_stack.pop()
+        try:
+            elements.extend([self.render(child) for child in token.children])
+        finally:
+            self._suppress_ptag_stack.pop()
         elements.append('</blockquote>')
         return '\n'.join(elements)
 
@@ -147,8 +149,10 @@ class HtmlRenderer(BaseRenderer):
             tag = 'ul'
             attr = ''
         self._suppress_ptag_stack.append(not token.loose)
-        inner = '\n'.join([self.render(child) for child in token.children])
-        self._suppress_ptag_stack.pop()
+        try:
+            inner = '\n'.join([self.render(child) for child in token.children])
+        finally:
+            self._suppress_ptag_stack.pop()
         return template.format(tag=tag, attr=attr, inner=inner)
 
     def render_list_item(self, token: block_token.ListItem) -> str:
